@@ -72,6 +72,31 @@ theorem fuel_irrelevant (f : Nat) (c : Ctx) (inp : Str) (h : isToken c.bucket = 
     appendAsTokenFuel (f + 1) c inp = appendAsTokenFuel 1 c inp := by
   simp only [appendAsTokenFuel, h, Bool.false_eq_true, if_false]
 
+/-- **the recursion of `appendAsToken` is at most one level deep**: after the early-match branch the
+    pending text is empty, so the branch cannot be taken again — the model's fuel of 3 is never what
+    stops it (any larger fuel gives the same context) -/
+theorem appendAsToken_fuel_enough (k : Nat) (c : Ctx) (inp : Str) : appendAsTokenFuel (3 + k) c inp = appendAsToken c inp := by
+  have one : ∀ (f : Nat), appendAsTokenFuel (f + 1 + 1) c inp
+      = if isToken (c.seq ++ inp) then { c with seq := c.seq ++ inp, cand := tokenBytes (c.seq ++ inp), bucket := [] }
+        else if isToken c.bucket then
+          appendAsTokenFuel 1 { done := c.done ++ c.cand, cand := tokenBytes c.bucket, seq := c.bucket, bucket := [] } inp
+        else if isToken inp then
+          commit { (commit { c with seq := c.seq ++ inp }) with cand := (commit { c with seq := c.seq ++ inp }).cand ++ bytesFromUint ((tokenOf inp).getD 0) }
+        else { c with seq := c.seq ++ inp, bucket := c.bucket ++ inp } := by
+    intro f
+    rw [appendAsTokenFuel]
+    by_cases h1 : isToken (c.seq ++ inp) = true
+    · simp only [h1, if_true]
+    · by_cases h2 : isToken c.bucket = true
+      · simp only [h1, h2, if_true, Bool.false_eq_true, if_false]
+        cases f with
+        | zero => rfl
+        | succ f => exact fuel_irrelevant f _ inp empty_not_token
+      · simp only [h1, h2, Bool.false_eq_true, if_false]
+  unfold appendAsToken
+  have e : 3 + k = (k + 1) + 1 + 1 := by omega
+  rw [e, one (k + 1), show (3 : Nat) = 1 + 1 + 1 from rfl, one 1]
+
 /-- the sequence read so far becomes a keyword: it replaces what was pending -/
 theorem appendAsToken_match (c : Ctx) (inp : Str) (h1 : isToken (c.seq ++ inp) = true) :
     appendAsToken c inp = { c with seq := c.seq ++ inp, cand := tokenBytes (c.seq ++ inp), bucket := [] } := by
